@@ -83,6 +83,20 @@ func TwoSinks() *app.Res {
 // at a HALT in front of its INCMP lines, none terminates).
 func NeverEnds(i int) bool { return i == 0 || i == 3 }
 
+// Refresh: a node that shows a value, stops, and on any input loads the value
+// again and stops again without moving (a refresh-on-any-input screen): the
+// page after the second HALT is rendered by a VM that has not moved since.
+func Refresh() *app.Res {
+	rs := app.NewRes()
+	rs.Funcs["echo"] = func(ctx context.Context, sym string, input []byte) (resource.Result, error) {
+		return resource.Result{Content: "value " + string(input) + string(input) + string(input)}, nil
+	}
+	rs.Node("root", "now: {{.echo}}", app.Code().Load("echo", 20).Map("echo").MOut("again", "1").Halt().
+		Reload("echo").Halt().InCmp(".", "*").Bytes())
+	rs.Node("_catch", "oops", app.Code().MOut("back", "0").Halt().InCmp("_", "*").Bytes())
+	return rs
+}
+
 func Get(i int) *app.Res {
 	switch i {
 	case 0:
@@ -91,6 +105,8 @@ func Get(i int) *app.Res {
 		return MenuSink()
 	case 3:
 		return TwoSinks()
+	case 4:
+		return Refresh()
 	}
 	return Croak()
 }
